@@ -125,10 +125,53 @@ def bfs_dist(edges, n):
     return dist
 
 
+def link_exclusion_cases(ctx, n, extra=()):
+    """exclusions a LINK declares (lines with several atoms: the first against each of the others; the same atoms may stand
+    on several lines in another order): every declared pair is excluded at every junction the link applies to"""
+    rng = ctx.rng
+    todo = list(extra)
+    for _ in range(n):
+        seq = ['A'] + [rng.choice('AB') for _ in range(rng.randint(2, 5))]
+        lines_ = [['SC2', '+BB', '+SC1'], ['+SC1', 'SC2', '+BB'], ['+BB', 'SC2', '+SC1']]
+        rng.shuffle(lines_)
+        todo.append({'seq': seq, 'lines': lines_[:rng.randint(2, 3)]})
+    for case in todo:
+        text = '\n'.join(['[ moleculetype ]', 'A 1', '[ atoms ]', '1 P1 1 A BB 1 0.0 72', '2 P1 1 A SC1 1 0.0 72', '3 P1 1 A SC2 1 0.0 72',
+                          '[ bonds ]', 'BB SC1 1 0.30 1000', 'SC1 SC2 1 0.30 1000',
+                          '[ moleculetype ]', 'B 2', '[ atoms ]', '1 P2 1 B BB 1 0.0 72', '2 P2 1 B SC1 1 0.0 72', '[ bonds ]', 'BB SC1 1 0.30 1000',
+                          '[ link ]', 'resname "A|B"', '[ bonds ]', 'BB +BB 1 0.35 1200',
+                          '[ link ]', '[ atoms ]', 'BB {"resname": "A"}', 'SC2 {"resname": "A"}', '+BB {"resname": "B"}', '+SC1 {"resname": "B"}',
+                          '[ exclusions ]', '#meta {"edge": false}'] + [' '.join(l) for l in case['lines']] + ['[ edges ]', 'BB +BB']) + '\n'
+        n_ = len(case['seq'])
+        g = {'nres': n_, 'shape': 'path', 'resnames': list(case['seq']), 'edges': [(i, i + 1) for i in range(n_ - 1)], 'r0': 1,
+             'keys': list(range(n_)), 'order': list(range(n_)), 'edge_order': list(range(n_ - 1)), 'flip': [False] * (n_ - 1)}
+        out = ffgen.run_pipeline(text, g)
+        ctx.case(('link_exclusions', json.dumps(case, sort_keys=True)), nontrivial='error' not in out, sample=case)
+        ctx.feature('exclusion_lines_declared_by_a_link')
+        if 'error' in out:
+            ctx.violation('spec', f"the pipeline failed on a link that declares exclusions: {out['error']}", {'link_exclusions': case})
+            continue
+        atom = {(a['resid'], a['name']): a['key'] for a in out['links']['atoms']}
+        want = set()
+        for r in range(1, n_):
+            if case['seq'][r - 1] == 'A' and case['seq'][r] == 'B':
+                for ln in case['lines']:
+                    ks = [atom[(r + 1, x[1:])] if x.startswith('+') else atom[(r, x)] for x in ln]
+                    want |= {tuple(sorted((ks[0], k))) for k in ks[1:]}
+        rows = [tuple(r['atoms']) for r in out['links']['inters'].get('exclusions', [])]
+        have = {tuple(sorted((r[0], x))) for r in rows for x in r[1:]}
+        if not want <= have:
+            ident = {v: k for k, v in atom.items()}
+            miss = sorted(want - have)[:3]
+            ctx.violation('spec', f"C14 fails on the implementation: a link declares the exclusion lines {case['lines']} for every A->B junction of {case['seq']}; "
+                          f"the pairs {[(ident[a], ident[b]) for a, b in miss]} are not excluded in the generated molecule", {'link_exclusions': case})
+
+
 def run(ctx):
     ctx.correspondences += ['MapToMolecule + ApplyLinks vs model/Excl.v: molecule nrexcl and generated exclusion pairs',
                             'effective exclusion relation judged independently (bond distances by BFS)']
     rng = ctx.rng
+    link_exclusion_cases(ctx, ctx.n(8, 60))
     cases = [(c['ff'], c['graph']) for _, c in core.corpus_cases('C14')]
     for p in itertools.product(range(5), repeat=2):
         cases.append(gen_case(rng, pair=p))
@@ -229,6 +272,11 @@ def search(ctx):
 
 def replay(ctx, data):
     print(json.dumps(data, indent=1, default=str)[:3000])
+    if 'link_exclusions' in data:
+        before = len(ctx.violations)
+        link_exclusion_cases(ctx, 0, extra=[data['link_exclusions']])
+        print('replay:', ctx.violations[-1]['what'][:400] if len(ctx.violations) > before else 'every declared pair is excluded')
+        return 1 if len(ctx.violations) > before else 0
     if 'ff' in data:
         out = ffgen.run_pipeline(ffgen.render_ff(data['ff']), data['graph'])
         print('replay: nrexcl', out.get('links', {}).get('nrexcl'), 'exclusions', out.get('links', {}).get('inters', {}).get('exclusions'))
